@@ -50,7 +50,7 @@ def rule_merges(ctx):
                 sites.append((bi, si, st))
     ctx.floor(R, "merge sites (stores to an earlier element's size)", len(sites), 3)
     kinds_seen = {}
-    for bi, si, st in sites:
+    for site_no, (bi, si, st) in enumerate(sites):
         def rel(a):
             if a[0] == "call":
                 return callname(a) in ("name_is_path", "is_executable", "is_empty_page", "eq", "is_some", "ne")
@@ -62,7 +62,7 @@ def rule_merges(ctx):
             return False
         dnf = conditions(b, bi, origin=o, entry=h, relevant=rel)
         if dnf is None or not dnf:
-            ctx.unproven(R, ("site", b.where(bi, si)), b.where(bi, si), "cannot compute the path condition of this merge")
+            ctx.unproven(R, ("site", "merge#%d" % (site_no + 1)), b.where(bi, si), "cannot compute the path condition of this merge")
             continue
         target = o.place({"l": st["p"]["l"], "proj": st["p"]["proj"][:-1], "ty": ""}, (bi, si))
         tgt = strip(root(strip(target)))
